@@ -128,6 +128,55 @@ Definition nodes_known (phi : list nat) (f : cnf) : bool :=
                                         | Node id => match phi_get phi id with Some _ => true | None => false end
                                         | _ => true end)) f.
 
+(* ---- the numbering of the at-most-one links (aux_<n>) ----
+   An auxiliary variable is identified by what it is linked to: its signature is the set of the
+   clauses it occurs in, with every auxiliary variable (itself included) written as Aux 0 and its own
+   polarity kept apart.  The auxiliaries are renumbered 1, 2, ... in the order of their signatures.
+   Equal signatures (the same group posted twice ...) leave the order open: the comparison may then
+   fail although the CNFs are isomorphic, and the semantic comparison decides. *)
+Definition is_aux (v : var) : bool := match v with Aux _ => true | _ => false end.
+Definition blur (l : literal) : literal := match fst l with Aux _ => (Aux 0, snd l) | _ => l end.
+Definition aux_sig (f : cnf) (n : nat) : cnf :=
+  canon_cnf (flat_map (fun c : clause =>
+     flat_map (fun l : literal =>
+                 match fst l with
+                 | Aux m => if Nat.eqb m n
+                            then [((Node (if snd l then 1 else 0), true) : literal) :: map blur c]  (* own polarity tagged *)
+                            else @nil clause
+                 | _ => @nil clause end) c) f).
+Definition aux_names (f : cnf) : list nat :=
+  dedupe Nat.eqb (msort Nat.leb (flat_map (fun c : clause =>
+    flat_map (fun l : literal => match fst l with Aux m => [m] | _ => @nil nat end) c) f)).
+Definition sig_cmp (a b : cnf * nat) : comparison := list_cmp (list_cmp lit_cmp) (fst a) (fst b).
+(* old number -> new number *)
+Definition aux_map (f : cnf) : list (nat * nat) :=
+  let sorted := msort (leb_of sig_cmp) (map (fun n => (aux_sig f n, n)) (aux_names f)) in
+  combine (map snd sorted) (seq 1 (List.length sorted)).
+Fixpoint assoc_nat (l : list (nat * nat)) (n : nat) : nat :=
+  match l with
+  | [] => n
+  | (k, v) :: r => if Nat.eqb k n then v else assoc_nat r n
+  end.
+Definition ren_aux_var (am : list (nat * nat)) (v : var) : var :=
+  match v with Aux n => Aux (assoc_nat am n) | _ => v end.
+Definition ren_aux (am : list (nat * nat)) (f : cnf) : cnf :=
+  map (map (fun l : literal => (ren_aux_var am (fst l), snd l))) f.
+(* the same set of clauses up to the numbering of the auxiliaries; also compares the registered
+   names (as sets) under the same renumbering *)
+Definition cnf_seteqb_aux (f g : cnf) (vf vg : list var) : bool :=
+  let af := aux_map f in let ag := aux_map g in
+  cnf_seteqb (ren_aux af f) (ren_aux ag g) &&
+  vars_seteqb (map (ren_aux_var af) vf) (map (ren_aux_var ag) vg).
+
+Example aux_example :   (* the two links of two chained groups numbered the other way round *)
+  cnf_seteqb_aux
+    [[(User "a", false); (Aux 1, false)]; [(Aux 1, true); (User "b", false)];
+     [(User "c", false); (Aux 2, false)]; [(Aux 2, true); (User "d", false)]]%string
+    [[(User "c", false); (Aux 1, false)]; [(Aux 1, true); (User "d", false)];
+     [(Aux 2, true); (User "b", false)]; [(User "a", false); (Aux 2, false)]]%string
+    [Aux 1; Aux 2; User "a"]%string [User "a"; Aux 2; Aux 1]%string = true.
+Proof. reflexivity. Qed.
+
 Example canon_example :
   cnf_seteqb [[(User "b", true); (Node 3, false)]; [(Aux 1, true)]; [(Node 3, false); (User "b", true); (User "b", true)]]%string
              [[(Aux 1, true)]; [(Node 3, false); (User "b", true)]]%string = true.
